@@ -24,10 +24,23 @@ pub struct NodeSpec {
     pub unreadable: bool,
 }
 
+/// A file or directory whose name is not valid UTF-8 (created after the ordinary nodes; the
+/// ordinary nodes, and everything derived from them, stay textual).
+#[derive(Clone, Debug)]
+pub struct RawNode {
+    /// Path relative to the tree root as bytes, `/`-separated; parents come first in the list.
+    pub rel: Vec<u8>,
+    pub is_dir: bool,
+}
+
 #[derive(Clone, Debug, Default)]
 pub struct TreeSpec {
     pub nodes: Vec<NodeSpec>,
+    pub raw: Vec<RawNode>,
 }
+
+/// Names that are not valid UTF-8, with pairwise distinct lossy conversions.
+pub const RAW_NAMES: &[&[u8]] = &[b"caf\xE9.txt", b"d\xFF", b"\xFF", b"a\xC3", b"\xF0\x9F.rs", b"\xFEbuild", b"x\x80y.md"];
 
 pub const NAMES: &[&str] = &[
     "a", "b", "c", "A", "ab", "a.b", ".a", ".hidden", "金", "x", "y", "z", "src", "doc", "lib.rs", "main.rs",
@@ -66,6 +79,47 @@ impl TreeSpec {
             unreadable: false,
         });
         true
+    }
+
+    /// Plants one to three entries with names that are not valid UTF-8 (and, for directories, a
+    /// few ordinary children) beneath the root or an ordinary directory.
+    pub fn plant_raw(&mut self, rng: &mut Rng) {
+        use std::os::unix::ffi::OsStrExt;
+        let dirs: Vec<String> = self.dirs().into_iter().filter(|d| d.split('/').count() < 3).collect();
+        for _ in 0..rng.range(1, 3) {
+            let parent = if dirs.is_empty() || rng.chance(1, 3) { String::new() } else { rng.pick(&dirs).clone() };
+            let name: &[u8] = *rng.pick(RAW_NAMES);
+            let mut rel: Vec<u8> = parent.as_bytes().to_vec();
+            if !rel.is_empty() {
+                rel.push(b'/');
+            }
+            rel.extend_from_slice(name);
+            if self.raw.iter().any(|r| r.rel == rel) {
+                continue;
+            }
+            let is_dir = rng.chance(1, 2);
+            self.raw.push(RawNode { rel: rel.clone(), is_dir });
+            if is_dir {
+                for _ in 0..rng.range(0, 3) {
+                    let child = *rng.pick(NAMES);
+                    let mut crel = rel.clone();
+                    crel.push(b'/');
+                    crel.extend_from_slice(std::ffi::OsStr::new(child).as_bytes());
+                    if self.raw.iter().any(|r| r.rel == crel) {
+                        continue;
+                    }
+                    let cdir = rng.chance(1, 3);
+                    self.raw.push(RawNode { rel: crel.clone(), is_dir: cdir });
+                    if cdir && rng.chance(1, 2) {
+                        let g = *rng.pick(NAMES);
+                        let mut grel = crel.clone();
+                        grel.push(b'/');
+                        grel.extend_from_slice(g.as_bytes());
+                        self.raw.push(RawNode { rel: grel, is_dir: false });
+                    }
+                }
+            }
+        }
     }
 
     pub fn dirs(&self) -> Vec<String> {
@@ -199,6 +253,16 @@ impl BuiltTree {
                 Kind::Dir => fs::create_dir(&p)?,
                 Kind::File => fs::write(&p, b"")?,
                 Kind::Link(t) => std::os::unix::fs::symlink(t, &p)?,
+            }
+        }
+        for r in &spec.raw {
+            use std::os::unix::ffi::OsStrExt;
+            let p = root.join(std::ffi::OsStr::from_bytes(&r.rel));
+            if r.is_dir {
+                fs::create_dir(&p)?;
+            }
+            else {
+                fs::write(&p, b"")?;
             }
         }
         let mut unreadable = Vec::new();
